@@ -202,6 +202,10 @@ def _arith_tabulate(ctx) -> None:
             continue
         total += n
         TAB[op] = not bad
+        if not bad:
+            # the operator is right on every operand combination (native timedelta operands included, so an attribute a native operand lacks
+            # would have shown): how it is written is then not a property
+            ctx.established(("DUNDER.result", "RATIO", "SCALE", "ADDSUB", "ATTR-UNDER-GUARD"), f"Duration.{op}", "ARITH.tabulated")
         ctx.ob("ARITH.tabulated", f"Duration.{op}", not bad,
                f"{n} operand combinations evaluated: " + (f"differs from the native operation: {bad[:3]}" if bad else
                "the result has the length of the native timedelta operation and is rebuilt through the operand's class"), m.loc(w.meths[op]))
